@@ -209,10 +209,30 @@ def classify_known_js(mech, case, got, ref):
 # ---------------------------------------------------------------------------------------------------------------
 # engines
 
+PY_NOISE_QUERIES = [
+    'update a1 = 1, a["no such column"] = 2', 'update a1 = 1, a2 = 2, a["nope"] = 3 where a1 == a1', 'update b1 = 1, a2 = 2', 'update a1 = 1, a9999 = 2', 'update a1 = a2 order by a1', 'update a1 == 2',
+    'select a1 +', 'select a["no such column"]', 'select a.no_such_column, a1', 'select a1 where a2 = 1', 'select a1, count(*) order by a1', 'select unnest([1]), unnest([2])',
+    'select a1 join zz on a1 == b1', 'select a1 join b on a9999 == b1', 'select * except a["nope"]', 'select a1 as x, *', 'select top x a1', 'select distinct count a1, count(*)',
+    'select a1, max(a2) group by a1 order by a1', 'select [1][5].foo', 'select like(a1)', 'select a1 strict left join b on a1 == b1', 'select a1 where', 'select',
+    'select AVG(NR), VARIANCE(NR * 1.5), SUM(NF)', 'select a1, MIN(NR), MAX(NR), MEDIAN(NR) group by a1', 'select like(a1, "%a_"), a1 order by a1 desc', 'select distinct count a1', 'update a1 = NU',
+]
+noise_counter = [0, 0]
+
+
 def run_case_py(ns, case, **kw):
     ctx = qast.Ctx(case['a_names'], case['b_names'])
     qtext = case.get('query_text') or qast.render(case['q'], ctx, 'py')
     case['query_text'] = qtext
+    # history: a third of the cases are preceded, in this same interpreter, by another (mostly failing) query on the same tables;
+    # the observed result is compared with the reference as always, so any dependence on what ran before shows up as a deviation
+    h = zlib.crc32(qtext.encode('utf-8', 'surrogatepass'))
+    if h % 3 == 0 and not kw.get('no_history'):
+        noise_counter[0] += 1
+        try:
+            ns.rbql.query_table(PY_NOISE_QUERIES[(h // 3) % len(PY_NOISE_QUERIES)], [list(r) for r in case['A']], [], [], None if case['B'] is None else [list(r) for r in case['B']], case['a_names'], case['b_names'])
+        except Exception:
+            noise_counter[1] += 1
+    kw.pop('no_history', None)
     o = boundary.run_py(ns, qtext, case['A'], case['B'], case['a_names'], case['b_names'], **kw)
     return o
 
